@@ -58,9 +58,10 @@ def gen_cases(tier, seed):
     for j in range(4 if not thorough else 24):
         cases.append({"sde": True, "model": W.gen_model_spec(rng, ["CGMY", "HEM", "VG", "MERTON"][j % 4], exp=False), "levels": 3,
                       "grid": {"ctor": "fixed", "dim": 1, "h": W.r6(rng.uniform(0.05, 0.15)), "n": int(rng.choice([5, 7, 9]))}, "seed": int(rng.integers(2**31))})
-    for j in range(4 if not thorough else 30):
+    for j in range(8 if not thorough else 40):
         dim = 2 if j % 4 else 3
-        cm = W.gen_copula_model_spec(rng, dim=dim, kind=str(rng.choice(["clayton", "clayton", "independent", "dependent"])))
+        # (cycle of length 5: coprime with the dimension, constructor and method cycles -- every combination comes up)
+        cm = W.gen_copula_model_spec(rng, dim=dim, kind=["clayton", "dependent", "clayton", "independent", "clayton"][j % 5])
         W.limit_variation(rng, cm, allow_infinite=(dim == 2 and j % 4 == 1), y_hi=0.7)
         for ms in cm["margins"]:
             if ms["family"] == "MERTON":
